@@ -47,6 +47,9 @@ class Prop(object):
         for comp in ('Uncompressed', 'ZIP', 'ZLIB', 'BZ2'):
             for fmt in 'btu':
                 u.append(('bodies', {'comp': comp, 'fmt': fmt, 'seed': seed, 'big': 65536 if tier == 'quick' else 1 << 20}))
+        # the compression algorithm named as the plain integer of RFC 4880 9.3 (and 0 as False) instead of the enum member
+        for comp, how in (('Uncompressed', 'int'), ('Uncompressed', 'bool'), ('ZLIB', 'int'), ('BZ2', 'int')):
+            u.append(('bodies', {'comp': comp, 'fmt': 'b', 'seed': seed, 'big': 4096, 'comp_as': how}))
         for h in R.S2K_HASHES:
             u.append(('passphrases', {'hash': h}))
         pair_kinds = ['rsa2048', 'cv25519', 'ecdh-p256', 'rsa-subkey', 'pass', 'pass2']
@@ -190,10 +193,15 @@ class Prop(object):
         except Exception as ex:
             r.viol('native', dict(tags, stage='grammar'), case, '%s: %r' % (label, ex))
 
-    def _mk(self, body, fmt='b', comp='Uncompressed', sensitive=False, file=None):
+    def _mk(self, body, fmt='b', comp='Uncompressed', sensitive=False, file=None, comp_as=None):
         import pgpy
         from pgpy.constants import CompressionAlgorithm
-        kw = dict(format=fmt, compression=CompressionAlgorithm[comp])
+        cval = CompressionAlgorithm[comp]
+        if comp_as == 'int':
+            cval = int(cval)
+        elif comp_as == 'bool':
+            cval = bool(int(cval))
+        kw = dict(format=fmt, compression=cval)
         if sensitive:
             kw['sensitive'] = True
         if file:
@@ -241,9 +249,9 @@ class Prop(object):
                         with open(path, 'wb') as f:
                             f.write(body)
                         os.utime(path, (T_LIT, T_LIT))
-                        m = self._mk(None, fmt, comp, file=path)
+                        m = self._mk(None, fmt, comp, file=path, comp_as=case.get('comp_as'))
                     else:
-                        m = self._mk(body, fmt, comp, sensitive=(nm == '_CONSOLE'))
+                        m = self._mk(body, fmt, comp, sensitive=(nm == '_CONSOLE'), comp_as=case.get('comp_as'))
                     rc = 'cv25519' if (len(body) + len(nm)) % 2 else 'pass'
                     self._native(r, m, [rc], 'AES128', {'part': 'bodies', 'fmt': fmt, 'comp': comp}, one, 'body %s format %s name %r compression %s' % (bname, fmt, nm, comp),
                                  armored=(len(body) % 3 == 0))
